@@ -118,6 +118,14 @@ Theorem root_independent : forall (ls : option Z -> Z) (t t' : tree),
 Proof. exact reroot_eq_score. Qed.
 Print Assumptions root_independent.
 
+(* stated without Fitch: whatever number of changes an assignment achieves on one rooting can be
+   achieved (or beaten) on every other rooting of the same unrooted tree *)
+Theorem min_changes_root_independent : forall (n : nat) (ls : option Z -> Z) (t t' : tree),
+  reroot_eq t t' -> binary t -> leaves_ok n ls t ->
+  forall a, fits ls a t -> exists a', fits ls a' t' /\ in_range (Z.of_nat n) a' /\ changes a' <= changes a.
+Proof. exact min_changes_reroot. Qed.
+Print Assumptions min_changes_root_independent.
+
 (* ... which contains the re-rooting at the edge reached by any path of child indexes *)
 Theorem reroot_at_any_edge : forall (fuel : nat) (p : list nat) (t : tree),
   binary t -> reroot_eq t (reroot_at fuel p t) /\ binary (reroot_at fuel p t).
